@@ -82,6 +82,8 @@ def main():
             cov.setdefault("streams", {})["%s/%s" % (stream, prof)] = {k: v for k, v in m.items() if k != "samples"}
             if prof == profiles[0]:
                 cov["samples"] += ["[%s] %s" % (stream, s) for s in m.get("samples", [])[:2]]
+            for v in m.get("violations", []):
+                failing.append({"desc": "%s (stream %s/%s seed %d tier %s)" % (v, stream, prof, seed, tier)})
         if not r["ok"]:
             d0 = r["disagreements"][0]
             broken.append(("correspondence", stream, "%d disagreement(s); first: %s" % (len(r["disagreements"]), json.dumps(d0)[:1500])))
